@@ -10,6 +10,11 @@ pub open spec fn xy_of(p: Seq<GdsPoint>, v: Seq<i32>) -> bool {
     v.len() == 2 * p.len() && forall|k: int| 0 <= k < p.len() ==> v[2 * k] == (#[trigger] p[k]).x && v[2 * k + 1] == p[k].y
 }
 impl GdsPoint {
+//@ fn gds21/src/data.rs :: impl GdsPoint :: fn new
+//@   ret r
+//@   spec
+//|     ensures r.x == x, r.y == y,
+//@ end
 //@ fn gds21/src/data.rs :: impl GdsPoint :: fn parse
 //@   ret r
 //@   sub R7 /"GdsPoint coordinate vector: Invalid number of elements"\.into\(\)/ => String::new()
